@@ -60,10 +60,10 @@ def hist(prop, mode, quick_runs, thorough_runs, quick_budget, thorough_budget, r
 
 
 CHECKS = {"C10": c10, "C09": c09, "C11": c11,
-          "C14": hist("C14", "C14", 2500, 150000, 90, 1500, "DESIGN.md §4.1 C14"),
-          "C08": hist("C08", "C08", 2500, 150000, 90, 1500, "DESIGN.md §4.1 C08"),
+          "C14": hist("C14", "C14", 2500, 150000, 130, 1500, "DESIGN.md §4.1 C14"),
+          "C08": hist("C08", "C08", 2500, 150000, 130, 1500, "DESIGN.md §4.1 C08"),
           "C06": hist("C06", "C06", 1200, 100000, 110, 1800, "DESIGN.md §4.1 C06"),
-          "C16": hist("C16", "C16", 4000, 120000, 90, 1200, "DESIGN.md §4.1 C16", level="fault_enumeration"),
+          "C16": hist("C16", "C16", 4000, 120000, 130, 1200, "DESIGN.md §4.1 C16", level="fault_enumeration"),
           "C07": None}
 
 
